@@ -503,3 +503,35 @@ def check(ctx) -> None:
     from . import c04
 
     c04.rule_g6(ctx, pl, "C01-R6")
+    rule_r7(ctx)
+
+
+def rule_r7(ctx) -> None:
+    """A reagent template replaces the reaction of a solved row (R3 re-validates it).  The validation cannot see a side
+    that does not parse: decompose returns an empty composition for it and two empty compositions compare as balanced.
+    Every molecule of the shipped templates therefore has to be a SMILES RDKit accepts (folded here, as a constant)."""
+    import json
+    import os
+
+    from .. import tables
+
+    ctx.rule("C01-R7", "every molecule of the shipped reagent templates is a SMILES that parses", 20)
+    path = os.path.join(ctx.repo, "synrbl", "SynChemImputer", "reaction_template.json")
+    try:
+        rt = json.load(open(path))
+    except (OSError, ValueError) as e:
+        raise AnalysisError("reaction_template.json unreadable: %s" % e)
+
+    def walk(node, trail):
+        if isinstance(node, dict):
+            for k, v in node.items():
+                if k in ("reactants", "products") and isinstance(v, list):
+                    for smi in v:
+                        ok = isinstance(smi, str) and tables.fold_rdkit(smi) is not None
+                        ctx.instance("C01-R7", "%s/%s: %s" % ("/".join(trail), k, smi), "synrbl/SynChemImputer/reaction_template.json", ok=ok)
+                        if not ok:
+                            ctx.finding("C01-R7", "reaction_template:%s/%s:unparsable:%s" % ("/".join(trail), k, smi), "synrbl/SynChemImputer/reaction_template.json", "template molecule %r does not parse: a curated reaction that contains it has an unparsable side, which the validation reads as an empty - hence balanced - composition, so the row stays solved with a reaction that is no SMILES" % (smi,))
+                else:
+                    walk(v, trail + [k])
+
+    walk(rt, [])
